@@ -21,16 +21,22 @@ class Analysis:
         self.rm = RaiseModel(self.repo, self.rs)
         self.flow = Flow(self.rs)
         self._cfg: dict[str, CFG] = {}
+        self.touched: set[str] = set()
         _install_repo_knowledge(self)
 
     # ------------------------------------------------------------------ basics
     def func(self, qualname: str) -> FuncInfo:
-        return self.repo.func(qualname)
+        # every function a rule asks for by name is part of what was analysed (evidence scope; the rename-twin
+        # generator renames locals in exactly these functions)
+        f = self.repo.func(qualname)
+        self.touched.add(f.qualname)
+        return f
 
     def cls(self, qualname: str) -> ClassInfo:
         return self.repo.cls(qualname)
 
     def cfg(self, fn: FuncInfo) -> CFG:
+        self.touched.add(fn.qualname)
         if fn.qualname not in self._cfg:
             self._cfg[fn.qualname] = CFG(fn.node, fn.qualname)
         return self._cfg[fn.qualname]
